@@ -3,6 +3,7 @@
 package geom
 
 func init() {
+	vfHarnesses["C03_triangle_hole"] = vfhC03TriangleHole
 	vfHarnesses["C03_nonfinite_point"] = vfhC03NonFinitePoint
 	vfHarnesses["C03_nonfinite_line"] = vfhC03NonFiniteLine
 	vfHarnesses["C03_issimple_3"] = vfhC03IsSimple3
@@ -151,6 +152,63 @@ func vfhC03MultiPolygonEmptyPosition() {
 	vfAssert(got == disjoint, "valid iff the members' interiors are disjoint, wherever the EMPTY member sits")
 	if got {
 		vfReach("valid")
+	} else {
+		vfReach("invalid")
+	}
+	vfReach("end")
+}
+
+// Polygon.Validate on a square shell [0,8]^2 with one triangular hole that is a
+// rigid lattice translate of one of three shapes, optionally with its start
+// vertex repeated; no edge of the hole properly crosses an edge of the shell
+// (stated bound, as in the MultiPolygon harness). What remains: hole inside,
+// outside, around the shell, touching it at vertices or along edges.
+func vfhC03TriangleHole() {
+	t := vfPt("t")
+	var off [3]XY
+	switch vfInt("shape", 0, 2) {
+	case 0:
+		off = [3]XY{{0, 0}, {2, 0}, {0, 2}}
+	case 1:
+		off = [3]XY{{0, 0}, {-2, 1}, {-1, 2}}
+	default:
+		off = [3]XY{{0, 0}, {20, -1}, {-1, 20}}
+	}
+	var h [3]XY
+	for i := range h {
+		h[i] = XY{t.X + off[i].X, t.Y + off[i].Y}
+	}
+	sh := []XY{{0, 0}, {8, 0}, {8, 8}, {0, 8}}
+	for i := 0; i < 4; i++ {
+		for j := 0; j < 3; j++ {
+			vfAssume(!vfProperCross(sh[i], sh[(i+1)%4], h[j], h[(j+1)%3]))
+		}
+	}
+	shell := vfLineXY(sh[0], sh[1], sh[2], sh[3], sh[0])
+	var hole LineString
+	if vfBool("repeat-start") {
+		hole = vfLineXY(h[0], h[0], h[1], h[2], h[0])
+	} else {
+		hole = vfLineXY(h[0], h[1], h[2], h[0])
+	}
+	poly := NewPolygon([]LineString{shell, hole})
+	inClosed, onBoundary := 0, 0
+	for i := range h {
+		if vfAnd(vfAnd(h[i].X >= 0, h[i].X <= 8), vfAnd(h[i].Y >= 0, h[i].Y <= 8)) {
+			inClosed++
+			if vfOr(vfOr(h[i].X == 0, h[i].X == 8), vfOr(h[i].Y == 0, h[i].Y == 8)) {
+				onBoundary++
+			}
+		}
+	}
+	want := inClosed == 3 && onBoundary <= 1
+	got := poly.Validate() == nil
+	vfAssert(got == want, "valid iff the hole lies in the closed shell and touches it in at most one point")
+	if got {
+		vfReach("valid")
+		if onBoundary == 1 {
+			vfReach("valid-touching")
+		}
 	} else {
 		vfReach("invalid")
 	}
